@@ -50,7 +50,7 @@ def sched_constants(kind, tier, depth, outdir, tp=BIG_TP):
     return dict(KIND=kind, TP=tp, MaxH=3 * depth, MaxT=6 * depth, MaxSeq=3 if tier == "quick" else 4,
                 DATA={"ok", "fail", "async"}, SENDERS={"A", "B"}, DTS={1, 2}, FREEZE=True,
                 TOH_OFFS={3, 6, 12}, TOT_OFFS={4, 9, 20}, TOS_OFFS={2, 4, 9},
-                Depth=depth, OutDir=outdir, HONEST_PCT=60, MACRO_PCT=45)
+                Depth=depth, OutDir=outdir, HONEST_PCT=60, MACRO_PCT=50, EDGE_PCT=20)
 
 
 def sizes(tier):
